@@ -3,7 +3,7 @@
 set -u
 W=$1; N=$2
 mkdir -p /verif/seeded/refactors /tmp/gv
-(cd $W && git diff -- src > /verif/seeded/refactors/$N.patch.diff; cp SEED/README.md /verif/seeded/refactors/$N.README.md 2>/dev/null)
+(cd $W && git add -N src 2>/dev/null; git diff HEAD -- src > /verif/seeded/refactors/$N.patch.diff; cp SEED/README.md /verif/seeded/refactors/$N.README.md 2>/dev/null)
 cd /repo && git apply /verif/seeded/refactors/$N.patch.diff || exit 2
 T=/tmp/gv/t-$N
 LD_LIBRARY_PATH=$(rustc +nightly --print sysroot)/lib RUSTFLAGS="-Zmir-opt-level=0 -Awarnings -C debug-assertions=on -C overflow-checks=on" RUSTC_WORKSPACE_WRAPPER=/verif/driver/target/debug/griddle-facts VERIF_CRATE=griddle VERIF_FACTS_OUT=/tmp/gv/$N.json CARGO_TARGET_DIR=$T CARGO_NET_OFFLINE=true cargo +nightly check --offline --lib --features rayon,serde 2>&1 | tail -1
